@@ -57,6 +57,7 @@ Definition S_RequestName : bytes := [82; 101; 113; 117; 101; 115; 116; 78; 97; 1
 Definition S_BecomeMonitor : bytes := [66; 101; 99; 111; 109; 101; 77; 111; 110; 105; 116; 111; 114].
 Definition S_Monitoring : bytes :=        (* org.freedesktop.DBus.Monitoring *)
   DBUS_INTERFACE_DBUS_str ++ [46; 77; 111; 110; 105; 116; 111; 114; 105; 110; 103].
+Definition S_Peer : bytes := DBUS_INTERFACE_DBUS_str ++ [46; 80; 101; 101; 114].     (* org.freedesktop.DBus.Peer *)
 Definition S_su : bytes := [115; 117].
 Definition S_asu : bytes := [97; 115; 117].
 Definition S_unique_prefix : bytes := [58; 49; 46].     (* ":1." *)
@@ -69,7 +70,10 @@ Inductive mout :=
 | NoReply (to : N) (serial : N)          (* error NoReply sent to the caller of a pending call whose callee went away *)
 | Refused (c : N) (serial : N)           (* error LimitsExceeded in reply to c's call with that serial *)
 | ActFail (c : N) (serial : N)           (* the activation c's message with that serial waited for has failed: error reply *)
-| ActOk (c : N) (serial : N).            (* StartServiceByName answered DBUS_START_REPLY_SUCCESS *)
+| ActOk (c : N) (serial : N)             (* StartServiceByName answered DBUS_START_REPLY_SUCCESS *)
+| Self (c : N) (serial : N).             (* answered by c's own DBusConnection inside the bus (built-in Peer handler, or the
+                                            UnknownMethod/UnknownObject fallback of dbus_connection_dispatch): reply or error on c's socket,
+                                            whatever NO_REPLY_EXPECTED says; the bus's dispatcher, monitors included, never sees the message *)
 
 Definition MON : N := 0.            (* recipient "every monitor"; connection ids of the run start at 1 *)
 
@@ -265,13 +269,21 @@ Definition mini_disconnect (k : mstate) (c : N) (active : bool) : mstate * list 
 (* bus_dispatch *)
 Definition mini_dispatch (k : mstate) (c : N) (active : bool) (m : message) : mstate * list (N * mout) * verdict :=
   let seen := (MON, Seen c (msg_raw m)) in
+  (* dbus_connection_dispatch runs _dbus_connection_peer_filter_unlocked_no_update BEFORE the bus's filter: a message of ANY type
+     with interface org.freedesktop.DBus.Peer and no DESTINATION (route_peer_messages is on) is answered by the connection
+     itself — Ping / GetMachineId return, everything else UnknownMethod — and goes no further *)
+  if match str_field m DBUS_HEADER_FIELD_DESTINATION with None => opt_is (str_field m DBUS_HEADER_FIELD_INTERFACE) S_Peer | Some _ => false end
+  then (k, [(MON, Self c (msg_serial m))], VNone)
+  else
   if mem c (m_mons k) then (k, [], VClose)       (* "Monitors aren't meant to send messages to us": closed, not captured *)
   else
   match str_field m DBUS_HEADER_FIELD_DESTINATION with
   | None =>
       if msg_type m =? DBUS_MESSAGE_TYPE_SIGNAL
       then (k, [seen], if active then VNone else VClose)
-      else (k, [], VNone)                      (* DBUS_HANDLER_RESULT_NOT_YET_HANDLED: libdbus answers, no capture *)
+      else if msg_type m =? DBUS_MESSAGE_TYPE_METHOD_CALL
+      then (k, [(MON, Self c (msg_serial m))], VNone)   (* DBUS_HANDLER_RESULT_NOT_YET_HANDLED: dbus_connection_dispatch's fallback error reply, no capture *)
+      else (k, [], VNone)                      (* NOT_YET_HANDLED and not a call: dropped silently *)
   | Some d =>
       if bytes_eqb d DBUS_SERVICE_DBUS_str then
         if active then
